@@ -471,4 +471,4 @@ def _obligations():
 
 
 def obligations():
-    return _obligations() + [labels_obligation("C19"), selectors_obligation("C19"), effects_obligation("C19")]
+    return _obligations() + [labels_obligation("C19"), selectors_obligation("C19"), effects_obligation("C19"), plumbing_obligation("C19")]
